@@ -1,6 +1,6 @@
 SPECIFICATION Spec
 CONSTANTS
-  FullPermR = 6
+  FullPermR = 5
   MaxR = 6
   GenDraws = 6
   MetricDraws = 6
